@@ -24,6 +24,41 @@ pub enum Related {
   /// one character from a list of "invisible" decorations (BOM, NUL, whitespace, zero-width, combining mark)
   /// prepended (false) or appended (true)
   Decorate(bool, u8),
+  /// the text is a JSON object: the SAME document written another way (0 pretty-printed, 1 members in reverse order,
+  /// 2 a blank after every colon, 3 first letter of the first key as a \\u escape, 4 a shadowed duplicate of the first
+  /// member in front); if the text is no JSON object, a fixed JSON footer / its respelling pair is not derivable: None
+  JsonRespell(u8),
+}
+
+/// another spelling of the JSON object `text` (None if it is none or nothing changes)
+pub fn json_respell(text: &str, how: u8) -> Option<String> {
+  let v: serde_json::Value = serde_json::from_str(text).ok()?;
+  let obj = v.as_object()?;
+  if obj.is_empty() {
+    return Some("{ }".to_string());
+  }
+  let members: Vec<(String, String)> = obj.iter().map(|(k, v)| (serde_json::Value::String(k.clone()).to_string(), v.to_string())).collect();
+  let out = match how % 5 {
+    0 => serde_json::to_string_pretty(&v).ok()?,
+    1 => format!("{{{}}}", members.iter().rev().map(|(k, v)| format!("{k}:{v}")).collect::<Vec<_>>().join(",")),
+    2 => format!("{{{}}}", members.iter().map(|(k, v)| format!("{k}: {v}")).collect::<Vec<_>>().join(", ")),
+    3 => {
+      let (k0, v0) = &members[0];
+      let inner: Vec<char> = k0[1..k0.len() - 1].chars().collect();
+      match inner.first() {
+        Some(c) if c.is_ascii_alphanumeric() => {
+          let esc = format!("\"\\u{:04x}{}\"", *c as u32, inner[1..].iter().collect::<String>());
+          format!("{{{}}}", std::iter::once(format!("{esc}:{v0}")).chain(members[1..].iter().map(|(k, v)| format!("{k}:{v}"))).collect::<Vec<_>>().join(","))
+        }
+        _ => return None,
+      }
+    }
+    _ => {
+      let (k0, _) = &members[0];
+      format!("{{{k0}:\"shadowed\",{}}}", members.iter().map(|(k, v)| format!("{k}:{v}")).collect::<Vec<_>>().join(","))
+    }
+  };
+  if out == text { None } else { Some(out) }
 }
 
 pub const DECOR: [&str; 14] = ["\u{feff}", "\0", " ", "\t", "\n", "\r\n", "\u{200b}", "\u{301}", "\u{a0}", "\u{3000}", "\u{2028}", "\u{7f}", "\u{200e}", "\u{1}"];
@@ -46,6 +81,8 @@ pub enum SegEdit {
   /// the footer segment becomes (or, for a token without footer, a fourth segment is added that is) text that is no
   /// unpadded base64url at all: "A", "=", "Zm9v=", "Zh" (non-zero trailing bits), "!!!!", "-", "AA=A", "A A"
   Junk(u8),
+  /// one character of the footer segment (or the dot in front of it) written as its percent-escape (`A` -> `%41`)
+  PercentEscape(u16),
 }
 
 pub const JUNK_SEGMENTS: [&str; 8] = ["A", "=", "Zm9v=", "Zh", "!!!!", "-", "AA=A", "A A"];
@@ -100,6 +137,18 @@ pub fn related(orig: &Option<String>, rel: &Related) -> Option<String> {
       let d = DECOR[(*i as usize) % DECOR.len()];
       Some(if *after { format!("{o}{d}") } else { format!("{d}{o}") })
     }
+    // (callers substitute a JSON footer first when the original is none - see `with_json`)
+    Related::JsonRespell(how) => Some(json_respell(&o, *how).unwrap_or_else(|| format!("{o} "))),
+  }
+}
+
+/// for the JsonRespell relation the original text must be a JSON object: replace it by one if it is not
+pub fn with_json(orig: &Option<String>, rel: &Related) -> Option<String> {
+  match rel {
+    Related::JsonRespell(how) if orig.as_deref().and_then(|o| json_respell(o, *how)).is_none() => {
+      Some(["{\"kid\":\"k4.lid.abc\",\"n\":1}", "{\"tenant\":42,\"user\":\"rick\"}", "{\"keys\":[{\"kid\":\"a\"},{\"kid\":\"b\"}],\"v\":2}"][*how as usize % 3].to_string())
+    }
+    _ => orig.clone(),
   }
 }
 
@@ -118,7 +167,9 @@ impl Sub for FooterBinding {
     format!("C05/{}/{}", self.proto.label(), self.layer.label())
   }
   fn check(&self, c: &FooterCase, cl: &mut Classes) -> Verdict {
-    let s = &c.tok;
+    let mut spec = c.tok.clone();
+    spec.footer = with_json(&spec.footer, &c.rel);
+    let s = &spec;
     let p = s.proto;
     let t = match s.token() {
       Ok(t) => t,
@@ -131,8 +182,8 @@ impl Sub for FooterBinding {
     cl.tag(format!("{}:{}", p.label(), s.layer.label()));
     cl.tag(format!("related:{}", match &c.rel {
       Related::Same => "same", Related::EmptyVsNone => "none-vs-empty", Related::None => "none", Related::Empty => "empty", Related::Prefix(_) => "prefix",
-      Related::Extend(_) => "extension", Related::CaseFlip => "case", Related::LastByte(_) => "last-byte", Related::Other(_) => "unrelated", Related::Decorate(..) => "invisible-decoration" }));
-    cl.tag(format!("edit:{}", match c.edit { SegEdit::Keep => "keep", SegEdit::Replace => "replace", SegEdit::Remove => "remove", SegEdit::Blank => "blank", SegEdit::Extend(_) => "extend", SegEdit::Truncate(_) => "truncate", SegEdit::Pad(_) => "pad", SegEdit::Junk(_) => "junk" }));
+      Related::Extend(_) => "extension", Related::CaseFlip => "case", Related::LastByte(_) => "last-byte", Related::Other(_) => "unrelated", Related::Decorate(..) => "invisible-decoration", Related::JsonRespell(_) => "same-json-document-respelt" }));
+    cl.tag(format!("edit:{}", match c.edit { SegEdit::Keep => "keep", SegEdit::Replace => "replace", SegEdit::Remove => "remove", SegEdit::Blank => "blank", SegEdit::Extend(_) => "extend", SegEdit::Truncate(_) => "truncate", SegEdit::Pad(_) => "pad", SegEdit::Junk(_) => "junk", SegEdit::PercentEscape(_) => "percent-escape" }));
     // (iii) shape of the produced token
     let (header, pseg, fseg) = split_token(&t).expect("well-formed token");
     let want_seg = if norm(f).is_empty() { None } else { Some(b64(norm(f).as_bytes())) };
@@ -174,6 +225,14 @@ impl Sub for FooterBinding {
           SegEdit::Remove => None,
           SegEdit::Extend(i) => Some(format!("{}{}", cur_seg, "A".repeat(SEG_DELTAS[(i as usize) % SEG_DELTAS.len()]))),
           SegEdit::Junk(k) => Some(JUNK_SEGMENTS[k as usize % JUNK_SEGMENTS.len()].to_string()),
+          SegEdit::PercentEscape(i) => {
+            if cur_seg.is_empty() {
+              return Verdict::Discard;
+            }
+            let chars: Vec<char> = cur_seg.chars().collect();
+            let k = pick(i, chars.len());
+            Some(chars.iter().enumerate().map(|(j, ch)| if j == k { format!("%{:02X}", *ch as u32) } else { ch.to_string() }).collect())
+          }
           SegEdit::Pad(n) => {
             if cur_seg.is_empty() {
               return Verdict::Discard;
@@ -193,13 +252,13 @@ impl Sub for FooterBinding {
           SegEdit::Replace => f2.clone(),
           // what the edited segment decodes to, if it decodes at all
           SegEdit::Extend(_) | SegEdit::Truncate(_) => new_seg.as_deref().and_then(unb64).and_then(|b| String::from_utf8(b).ok()),
-          SegEdit::Pad(_) => f.clone(), // a padded segment still spells F: it must be refused under F all the same
+          SegEdit::Pad(_) | SegEdit::PercentEscape(_) => f.clone(), // a padded / escaped segment still spells F: it must be refused under F all the same
           _ => None,
         };
         if matches!(c.edit, SegEdit::Extend(_) | SegEdit::Truncate(_)) && fseg.is_none() && matches!(c.edit, SegEdit::Truncate(_)) {
           return Verdict::Discard;
         }
-        if norm(&edited_value) == norm(f) && !matches!(c.edit, SegEdit::Pad(_) | SegEdit::Junk(_)) {
+        if norm(&edited_value) == norm(f) && !matches!(c.edit, SegEdit::Pad(_) | SegEdit::Junk(_) | SegEdit::PercentEscape(_)) {
           return Verdict::Discard; // the decoded footer value did not change
         }
         let edited = match &new_seg {
@@ -217,7 +276,7 @@ impl Sub for FooterBinding {
           }
           match r {
             Err(e) => cl.tag(format!("rejected:{}", e.variant)),
-            Ok(o) => vio!("C05:accepted-edited-footer-segment:{}:{}:{}:{}", p.label(), s.layer.label(), match c.edit { SegEdit::Replace => "Replace", SegEdit::Remove => "Remove", SegEdit::Blank => "Blank", SegEdit::Extend(_) => "Extend", SegEdit::Truncate(_) => "Truncate", SegEdit::Pad(_) => "Pad", SegEdit::Junk(_) => "Junk", SegEdit::Keep => "Keep" }, who;
+            Ok(o) => vio!("C05:accepted-edited-footer-segment:{}:{}:{}:{}", p.label(), s.layer.label(), match c.edit { SegEdit::Replace => "Replace", SegEdit::Remove => "Remove", SegEdit::Blank => "Blank", SegEdit::Extend(_) => "Extend", SegEdit::Truncate(_) => "Truncate", SegEdit::Pad(_) => "Pad", SegEdit::Junk(_) => "Junk", SegEdit::PercentEscape(_) => "PercentEscape", SegEdit::Keep => "Keep" }, who;
               "footer segment edited ({:?}: {:?} -> {:?}) yet accepted under the {} footer {:?}, returned {:?}; token {}", c.edit, f, edited_value, who, expect, o.message(), edited),
           }
         }
@@ -239,12 +298,13 @@ fn rel_strategy() -> BoxedStrategy<Related> {
     2 => any::<u8>().prop_map(Related::LastByte),
     2 => prop_oneof![gen::jsonish(16), gen::unicode(6)].prop_map(Related::Other),
     3 => (any::<bool>(), any::<u8>()).prop_map(|(a, i)| Related::Decorate(a, i)),
+    2 => any::<u8>().prop_map(Related::JsonRespell),
   ]
   .boxed()
 }
 
 fn case(proto: Proto, layer: Layer) -> BoxedStrategy<FooterCase> {
-  (tok_spec(proto, layer), rel_strategy(), prop_oneof![8 => Just(SegEdit::Keep), 4 => Just(SegEdit::Replace), 2 => Just(SegEdit::Remove), 2 => Just(SegEdit::Blank), 3 => any::<u8>().prop_map(SegEdit::Extend), 1 => any::<u8>().prop_map(SegEdit::Truncate), 1 => any::<u8>().prop_map(SegEdit::Pad), 2 => any::<u8>().prop_map(SegEdit::Junk)])
+  (tok_spec(proto, layer), rel_strategy(), prop_oneof![8 => Just(SegEdit::Keep), 4 => Just(SegEdit::Replace), 2 => Just(SegEdit::Remove), 2 => Just(SegEdit::Blank), 3 => any::<u8>().prop_map(SegEdit::Extend), 1 => any::<u8>().prop_map(SegEdit::Truncate), 1 => any::<u8>().prop_map(SegEdit::Pad), 2 => any::<u8>().prop_map(SegEdit::Junk), 2 => any::<u16>().prop_map(SegEdit::PercentEscape)])
     .prop_map(|(tok, rel, edit)| FooterCase { tok, rel, edit })
     .boxed()
 }
@@ -270,9 +330,29 @@ pub fn run(ctx: &Ctx) -> EvidenceMeta {
     let n = (ctx.n(8000, 80_000) / s.proto.cost().min(20)).max(300);
     jobs.push(Box::new(move || ctx.prop(s, case(s.proto, s.layer), n)));
   }
+  // every footer length 0..=1100 (ASCII, multi-byte, JSON flavours in turn), presented with the same footer and with its last byte changed
+  for s in subs.iter().filter(|s| matches!((s.proto, s.layer), (Proto::V4L, Layer::Core) | (Proto::V4P, Layer::Generic) | (Proto::V2L, Layer::Prelude) | (Proto::V3L, Layer::Core))) {
+    let max = if ctx.is_child() { 300 } else { 1100 };
+    jobs.push(Box::new(move || {
+      let cases = (0..=max).flat_map(move |len: u32| {
+        let tok = TokSpec {
+          proto: s.proto,
+          layer: s.layer,
+          key_seed: vec![(len % 251) as u8; 32],
+          nonce: vec![9u8; if s.proto == Proto::V2L { 24 } else { 32 }],
+          msg: "{\"data\":\"footer length sweep\"}".into(),
+          footer: Some(gen::sized(len as usize, (len % 4) as u8)),
+          assertion: None,
+          core_payload: if s.layer == Layer::Core { None } else { Some("{\"data\":\"{\\\"data\\\":\\\"footer length sweep\\\"}\"}".into()) },
+        };
+        [FooterCase { tok: tok.clone(), rel: Related::Same, edit: SegEdit::Keep }, FooterCase { tok, rel: Related::LastByte(1), edit: SegEdit::Keep }]
+      });
+      ctx.enumerate(s, cases, false)
+    }));
+  }
   run_jobs(jobs);
   EvidenceMeta {
-    rule: "token built with footer F in {none, explicit empty, JSON-ish, Unicode}; related footer F' built by construction: same, none<->empty, none, empty, prefix, extension, case change, last byte changed, unrelated. \
+    rule: "every footer length 0..=1100 on four (protocol, layer) pairs; token built with footer F in {none, explicit empty, JSON-ish, Unicode}; related footer F' built by construction: same, none<->empty, none, empty, prefix, extension, case change, last byte changed, unrelated. \
            (i) unedited token parsed with expected F': accepted (with the original message) iff norm(F') == norm(F), none == empty - both directions; \
            (ii) token-side edits of the footer segment (replaced by base64url(F'), removed, blanked) that change its decoded value: rejected under F and under the edited value; \
            (iii) the produced token's 4th segment is exactly the unpadded base64url of F, present iff F is non-empty. \
